@@ -664,3 +664,106 @@ Proof.
   - unfold arg_terminator in Hl. destruct Hl as [<-|Hl]; [apply run_positional_line; [reflexivity|tauto|tauto]|eapply IH; eassumption].
   - destruct (negb (a_required (fst p))); (destruct Hl as [<-|Hl]; [apply run_positional_line; [reflexivity|tauto|tauto]|eapply IH; eassumption]).
 Qed.
+
+(** ---- commands whose names, aliases, argument names and bin names are tame ---- *)
+Fixpoint ztame_cmd (c : cmd) : bool :=
+  match c with
+  | mkCmd n al args subs bin _ _ _ _ =>
+      tame n && tame_fst al && forallb ztame_arg args && tame_opt bin && forallb ztame_cmd subs
+  end.
+Lemma ztame_cmd_unfold c :
+  ztame_cmd c = tame (c_name c) && tame_fst (c_aliases c) && forallb ztame_arg (c_args c) && tame_opt (c_bin c)
+                && forallb ztame_cmd (c_subs c).
+Proof. destruct c; reflexivity. Qed.
+Lemma ztame_cmd_parts c : ztame_cmd c = true ->
+  tame (c_name c) = true /\ tame_fst (c_aliases c) = true /\ forallb ztame_arg (c_args c) = true /\
+  tame_opt (c_bin c) = true /\ forallb ztame_cmd (c_subs c) = true.
+Proof.
+  rewrite ztame_cmd_unfold. intros H. repeat (apply andb_true_iff in H; destruct H as [H ?]). auto.
+Qed.
+Lemma ztame_sub c sc : ztame_cmd c = true -> In sc (c_subs c) -> ztame_cmd sc = true.
+Proof. intros H Hin. destruct (ztame_cmd_parts c H) as (_ & _ & _ & _ & Hs). apply (forallb_in _ _ _ Hs Hin). Qed.
+Lemma ztame_desc c n : ztame_cmd c = true -> desc c n -> ztame_cmd n = true.
+Proof.
+  intros H Hd. induction Hd as [c sc Hin|c sc n Hin Hd IH]; [eapply ztame_sub; eauto|].
+  apply IH. eapply ztame_sub; eauto.
+Qed.
+Lemma ztame_names sc w : ztame_cmd sc = true -> In w (get_name_and_visible_aliases sc) -> tame w = true.
+Proof.
+  intros H Hw. destruct (ztame_cmd_parts sc H) as (Hn & Ha & _). destruct Hw as [<-|Hw]; [exact Hn|].
+  eapply tame_visible; eassumption.
+Qed.
+Lemma ztame_bin c b : ztame_cmd c = true -> c_bin c = Some b -> tame b = true.
+Proof. intros H Hb. destruct (ztame_cmd_parts c H) as (_ & _ & _ & Ht & _). rewrite Hb in Ht. exact Ht. Qed.
+Lemma ztame_args c d p : ztame_cmd c = true -> In p (zipd ad0 (c_args c) (cd_args d)) -> ztame_arg (fst p) = true.
+Proof.
+  intros H Hin. destruct (ztame_cmd_parts c H) as (_ & _ & Ha & _). destruct p as [a ad].
+  apply zipd_in_l in Hin. apply (forallb_in _ _ _ Ha Hin).
+Qed.
+Lemma ztame_arg_tame a : ztame_arg a = true -> tame_arg a = true.
+Proof. unfold ztame_arg. intros H. apply andb_true_iff in H. tauto. Qed.
+
+Lemma Some_inj {A} (a b : A) : Some a = Some b -> a = b.
+Proof. intros H. inversion H. reflexivity. Qed.
+
+(** ---- the [_arguments] block ---- *)
+Lemma is_bs_zbb' l : run_to zbare is_bs l -> run_to zbare zbb l.
+Proof. apply run_to_weaken; [intros st H; exact H|apply is_bs_zbb]. Qed.
+
+Lemma zjoin_lines l : (forall x, In x l -> run_to zbare is_bs x) -> zjoin znl l <> [] -> run_to zbare zbb (zjoin znl l).
+Proof. intros H _. apply zjoin_run. intros x Hx. apply is_bs_zbb', H, Hx. Qed.
+
+Lemma run_write_opts_of c d g : ztame_cmd c = true -> run_to zbare zbb (write_opts_of c d g).
+Proof.
+  intros Ht. unfold write_opts_of. apply zjoin_run. intros x Hx. apply is_bs_zbb'.
+  apply in_flat_map in Hx. destruct Hx as (p & Hp & Hx). apply filter_In in Hp.
+  eapply run_opt_lines; [|exact Hx]. apply ztame_arg_tame. eapply ztame_args; [exact Ht|exact (proj1 Hp)].
+Qed.
+Lemma run_write_flags_of c d g : ztame_cmd c = true -> run_to zbare zbb (write_flags_of c d g).
+Proof.
+  intros Ht. unfold write_flags_of. apply zjoin_run. intros x Hx. apply is_bs_zbb'.
+  apply in_flat_map in Hx. destruct Hx as (p & Hp & Hx). apply filter_In in Hp.
+  eapply run_flag_lines; [|exact Hx]. apply ztame_arg_tame. eapply ztame_args; [exact Ht|exact (proj1 Hp)].
+Qed.
+Lemma run_write_positionals_of c d : ztame_cmd c = true -> run_to zbare zbb (write_positionals_of c d).
+Proof.
+  intros Ht. unfold write_positionals_of. apply zjoin_run. intros x Hx. apply is_bs_zbb'.
+  eapply run_positional_lines; [|exact Hx]. intros p Hp. apply filter_In in Hp.
+  eapply ztame_args; [exact Ht|exact (proj1 Hp)].
+Qed.
+
+Lemma pres_header : pres zbare zbb (lit "_arguments ""${_arguments_options[@]}"" : \").
+Proof. lit_pres. Qed.
+Lemma pres_ret : pres zbare zbare (lit "&& ret=0").
+Proof. lit_pres. Qed.
+
+Lemma run_get_args_of c d g blk : ztame_cmd c = true -> get_args_of c d g = Some blk -> run_to zbare zbare blk.
+Proof.
+  intros Ht. unfold get_args_of.
+  set (A := if negb (is_nil (write_opts_of c d g)) then [write_opts_of c d g] else []).
+  set (B := if negb (is_nil (write_flags_of c d g)) then [write_flags_of c d g] else []).
+  set (C := if negb (is_nil (write_positionals_of c d)) then [write_positionals_of c d] else []).
+  assert (Hsegs : forall x, In x ([args_header] ++ A ++ B ++ C) -> run_to zbare zbb x).
+  { intros x Hx. apply in_app_or in Hx. destruct Hx as [[<-|[]]|Hx]; [apply run_to_zx, pres_header|].
+    apply in_app_or in Hx. destruct Hx as [Hx|Hx].
+    { unfold A in Hx. destruct (negb (is_nil (write_opts_of c d g))); [|destruct Hx]. destruct Hx as [<-|[]].
+      apply run_write_opts_of; exact Ht. }
+    apply in_app_or in Hx. destruct Hx as [Hx|Hx].
+    { unfold B in Hx. destruct (negb (is_nil (write_flags_of c d g))); [|destruct Hx]. destruct Hx as [<-|[]].
+      apply run_write_flags_of; exact Ht. }
+    unfold C in Hx. destruct (negb (is_nil (write_positionals_of c d))); [|destruct Hx]. destruct Hx as [<-|[]].
+    apply run_write_positionals_of; exact Ht. }
+  destruct (has_subcommands c).
+  - destruct (c_bin c) as [b|] eqn:Eb; [|discriminate]. intros E; apply Some_inj in E; subst blk.
+    pose proof (ztame_bin c b Ht Eb) as Hb. destruct (ztame_cmd_parts c Ht) as (Hn & _).
+    match goal with |- run_to _ _ (zjoin znl (?S ++ [?l1; ?l2; ?l3])) =>
+      replace (S ++ [l1; l2; l3]) with ((S ++ [l1; l2]) ++ [l3]) by (rewrite <- app_assoc; reflexivity) end.
+    apply zjoin_run_last; [|apply run_to_zx, pres_ret].
+    intros x Hx. apply in_app_or in Hx. destruct Hx as [Hx|Hx]; [apply Hsegs; exact Hx|].
+    destruct Hx as [<-|[<-|[]]]; apply run_to_zx.
+    + apply (pres_app zbare is_dq zbb (lit """:: :_")); [lit_pres|].
+      apply (pres_app is_dq is_dq zbb (space_to_dd b)); [apply pres_tame_dq, tame_replace_byte; [reflexivity|exact Hb]|lit_pres].
+    + apply (pres_app zbare is_dq zbb (lit """*::: :->")); [lit_pres|].
+      apply (pres_app is_dq is_dq zbb (c_name c)); [apply pres_tame_dq; exact Hn|lit_pres].
+  - intros E; apply Some_inj in E; subst blk. apply zjoin_run_last; [exact Hsegs|apply run_to_zx, pres_ret].
+Qed.
